@@ -207,7 +207,8 @@ RawCatalogue(s) ==
      \* sub-sampling, gluing
 \cup {Op("Pick", 0, 0, 0, 0, p[1], p[2]) : p \in PickArgs(r, c)}
 \cup {Op("PickInv", 0, 0, 0, 0, p[1], p[2]) : p \in PickInvArgs(r, c)}
-\cup {Op("Glue", B2I(sr), B2I(sc), 0, 0, <<>>, <<>>) : sr \in BOOLEAN, sc \in BOOLEAN}
+     \* (without any shift the two blocks would overlap: what the overlap holds is not documented)
+\cup ({Op("Glue", B2I(sr), B2I(sc), 0, 0, <<>>, <<>>) : sr \in BOOLEAN, sc \in BOOLEAN} \ {Op("Glue", 0, 0, 0, 0, <<>>, <<>>)})
      \* inversion and linear solve (square, non singular)
 \cup (IF sq /\ Det(A.m) # 0 THEN {O0("Invert")} ELSE {})
 \cup (IF sq /\ n = r /\ Det(A.m) # 0 THEN {O0("Solve")} ELSE {})
@@ -218,7 +219,8 @@ RawCatalogue(s) ==
 \cup {Op("VecMat", B2I(t), 0, 0, 0, <<>>, <<>>) : t \in BOOLEAN}
 \cup {Op("GetRow", i, 0, 0, 0, <<>>, <<>>) : i \in 1..r}
 \cup {Op("GetCol", 0, j, 0, 0, <<>>, <<>>) : j \in 1..c}
-\cup (IF sq THEN {Op("GetDiag", 0, 0, sh, 0, <<>>, <<>>) : sh \in {0, 1, -1} \cap ((1 - r)..(r - 1))} ELSE {})
+     \* (the sign convention of a negative shift is not documented: only the main and the first upper diagonal)
+\cup (IF sq THEN {Op("GetDiag", 0, 0, sh, 0, <<>>, <<>>) : sh \in {0, 1} \cap ((1 - r)..(r - 1))} ELSE {})
 
 \* dimension conditions of the binary operations
 ShapeOK(o, s) ==
@@ -334,7 +336,7 @@ Profiles(o, pre, post) ==
 \* the cs storage documents that an in-place assignment cannot create a new non-zero term
 \* ("can only update a non-zero value; otherwise nothing is done" + error message)
 MayRefuse(o, p) == p = "spc" /\ o.op \in {"SetValue", "SetSym", "SetRow", "SetCol", "SetDiag", "SetDiagConst",
-                                          "SetIdentity", "Pick", "PickInv"}
+                                          "SetIdentity", "Pick", "PickInv", "LinComb"}
 
 -----------------------------------------------------------------------------
 (* Kronecker inflation: the law  Op(A (x) K, B (x) K, v (x) 1) = n^p (Op(A, B, v) (x) K)      *)
